@@ -603,7 +603,8 @@ def g_case(c, r):
     o = (f"(mkOracle {g_bool(c['hm'])} (outcome_of_code {c['om']}) (outcome_of_code {c['oa']}) {g_bool(c['early'])} "
          f"(map outcome_of_code {g_list([g_z(x) for x in c['obs']])}) (outcome_of_code {c['oc']}) "
          f"(map outcome_of_code {g_list([g_z(x) for x in c['ofs']])}) (loop_of_code {c['ol']}) {g_bool(c['restore'])})")
-    b = f"(mkObs {g_z(r['status'])} {g_list([g_z(x) for x in r['stops']])} {g_z(r['saves'])} {g_z(r['left'])})"
+    b = (f"(mkObs {g_z(r['status'])} {g_list([g_z(x) for x in r['stops']])} {g_z(r['saves'])} {g_z(r['left'])} "
+         f"{g_list([g_z(x) for x in r['starts']])} {g_list([g_z(x) for x in r['died']])})")
     return f"({o}, {b})"
 
 
@@ -618,12 +619,14 @@ CASES_FOOTER = (
     "  (ob_saves (snd c) =? (if o_restore (fst c) && core_running (fst c) then 1 else 0)).\n"
     "Definition m_left (c : oracle * obs) : bool := (ob_left (snd c) =? 0).\n"
     "Definition m_status (c : oracle * obs) : bool := (ob_status (snd c) =? 0) || (ob_status (snd c) =? 1).\n"
+    "Definition m_balance (c : oracle * obs) : bool := balance_ok_b (snd c).\n"
     "Definition m_all (c : oracle * obs) : bool := monitor_ok_b (fst c) (snd c).\n"
     "Eval vm_compute in mismatches corr cases.\n"
     "Eval vm_compute in mismatches m_order cases.\n"
     "Eval vm_compute in mismatches m_saves cases.\n"
     "Eval vm_compute in mismatches m_left cases.\n"
     "Eval vm_compute in mismatches m_status cases.\n"
+    "Eval vm_compute in mismatches m_balance cases.\n"
     "Eval vm_compute in mismatches m_all cases.\n"
 )
 
@@ -679,10 +682,10 @@ def evaluate_shutdown(chk, cases, results, label):
     texts = [CASES_HEADER + "Definition cases : list (oracle * obs) :=\n " + g_list([g_case(c, r) for c, r in sh])
              + ".\n" + CASES_FOOTER for sh in shards]
     outs = vlib.coq_eval_many(AREA, texts)
-    mon_names = ["stop_order", "state_saved", "registry_empty", "exit_status"]
+    mon_names = ["stop_order", "state_saved", "registry_empty", "exit_status", "start_stop_balance"]
     for sh, (rc, out) in zip(shards, outs):
         lists = vlib.parse_all_lists(out)
-        if rc != 0 or len(lists) != 6:
+        if rc != 0 or len(lists) != 7:
             corr_ok = False
             chk.corr_failure(f"shutdown-{label}", {"shard": "coq evaluation failed"}, out[-1500:])
             continue
@@ -701,9 +704,10 @@ def evaluate_shutdown(chk, cases, results, label):
                                    "running at shutdown",
                     "registry_empty": "actors were still registered when RootCommand.run returned",
                     "exit_status": "RootCommand.run did not return an exit status in {0, 1}",
+                    "start_stop_balance": "a registered actor neither died in on_start nor was stopped exactly once",
                 }[name]
                 chk.monitor_failure(name, shape(c), what, {"case": describe(c), "observed": r})
-        for i in lists[5]:
+        for i in lists[6]:
             if i not in flagged:
                 c, r = sh[i]
                 chk.monitor_failure("monitor_ok_b", shape(c), "monitor_ok_b false", {"case": describe(c), "observed": r})
